@@ -632,6 +632,19 @@ impl Prop for C08 {
             p.outputs = vec![root];
             st.inc("scenes_with_nan_intervals_over_large_cells");
         }
+        // one scene in ten is a truncated field, max(f, -c): the same solid,
+        // but flat (zero gradient) a little below the surface - a field
+        // that is no distance bound
+        if rng.chance(0.1) {
+            use crate::gen_::prog::{Bin, PNode};
+            let c = -(rng.uniform(0.02, 0.1) as f32);
+            p.nodes.push(PNode::Const(c));
+            let k = (p.nodes.len() - 1) as u32;
+            let old = p.outputs[0];
+            p.nodes.push(PNode::Bin(Bin::Max, old, k));
+            p.outputs = vec![(p.nodes.len() - 1) as u32];
+            st.inc("scenes_with_truncated_field");
+        }
         // one scene in eight lives a few units away from the model origin
         // (a part of a larger model), and the view looks at it there
         let mut off = [0f32; 3];
